@@ -52,9 +52,9 @@ def mismatches(ctx, pend, mm, pred=None):
             except Exception as e:
                 sig = preds.crash_sig(e)
         if sig:
-            ctx.violation(sig, dict(kind='input', **m.replay()), found_input=True)
+            ctx.violation(sig, dict(m.replay(), kind='input'), found_input=True)
         else:
-            pend.add('correspondence-broken:%s' % m.stream, dict(kind='theorem', obligation='correspondence stream `%s` (model vs implementation)' % m.stream, **m.replay()))
+            pend.add('correspondence-broken:%s' % m.stream, dict(m.replay(), kind='theorem', obligation='correspondence stream `%s` (model vs implementation)' % m.stream))
 
 
 def parse_impl(v, code):
